@@ -354,6 +354,58 @@ def ItemTiOK (cx : SemCtx α) (c : Cfg) : Item → Prop
   | .enum_ disc _ _ vs => TiOK cx c vs disc ∧ (vs.length > 1 → c.nightly = false → disc ≠ .single)
   | .item _ => True
 
+/-- Struct, or enum with at most one variant. -/
+theorem ordSingle_refines (c : Cfg) (it : Item) (dw : DeriveWhere) (t : Trait)
+    (ht : t = .partialOrd ∨ t = .ord) (hns : (dw.shortcut && dw.contains .ord) = false)
+    (cx : SemCtx α) (hwf : it.WF) (hnu : ∀ d ∈ it.variants, d.shape ≠ .union)
+    (hninc : it.isIncomparable = false) (hs : it.multi = false)
+    (k k' : Nat) (da db : Data) (fa fb : List (Val α))
+    (hda : it.variants[k]? = some da) (hdb : it.variants[k']? = some db)
+    (hla : fa.length = da.fields.length) (hlb : fb.length = db.fields.length)
+    (hfa : ∀ v ∈ fa, ∃ a, v = .leaf a) (hfb : ∀ v ∈ fb, ∃ a, v = .leaf a) :
+    (eval cx (env2 (.adt k fa) (.adt k' fb)) []
+      (if it.isEmpty t = true then equalExpr t else .match_ tupleSO (allOrdArms it dw t))).finish =
+      .ok (specOrdVal t cx.ops cx.ti it (.adt k fa) (.adt k' fb), []) := by
+  have hm := not_isIncomparable_marked it hninc
+  obtain ⟨hk0, hvs⟩ := single_variant it hs k da hda
+  obtain ⟨hk0', hvs'⟩ := single_variant it hs k' db hdb
+  subst hk0 hk0'
+  have hdab : db = da := by rw [hvs] at hvs'; simpa using hvs'.symm
+  subst hdab
+  have hdinc : db.incomparable = false := by
+    cases h : db.incomparable
+    · rfl
+    · exfalso
+      cases it with
+      | enum_ disc id inc vs =>
+        simp only [Item.variants] at hvs
+        subst hvs
+        simp [Item.isIncomparable, h] at hninc
+      | item d' =>
+        simp only [Item.variants, List.cons.injEq, and_true] at hvs
+        subst hvs
+        simp [Item.isIncomparable, h] at hninc
+  have hitEmpty : it.isEmpty t = db.isEmpty t := by simp [Item.isEmpty, hvs]
+  rw [specOrdVal_same t ht cx.ops cx.ti it 0 db fa fb hda hm hdinc]
+  by_cases hemp : db.isEmpty t = true
+  · simp only [hitEmpty, hemp, if_true, eval_equalExpr, Out.finish,
+      relevantIdx_nil_of_isEmpty db t hemp, lexVal_nil]
+  · have hemp' : db.isEmpty t = false := by simpa using hemp
+    have henv := env2_Env2 (.adt 0 fa) (.adt 0 fb)
+    simp only [hitEmpty, hemp', Bool.false_eq_true, if_false, eval, eval_tupleSO' cx _ _ _ henv, Out.bind_ok]
+    have := evalArms_indexed cx (env2 (.adt 0 fa) (.adt 0 fb)) [] (.tuple [.adt 0 fa, .adt 0 fb])
+      (fun k d => ordArmsFor t dw k d) 0
+      (fun k' d' h => ordArmsFor_miss t dw 0 k' d' fa fb h) it []
+    simp only [List.append_nil, hda] at this
+    simp only [allOrdArms]
+    refine (congrArg Out.finish this).trans ?_
+    have harm := ord_arm cx t ht dw hns (env2 (.adt 0 fa) (.adt 0 fb)) [] 0 db fa fb [] hla hlb hfa hfb
+      hemp' hdinc (shape_of_nonempty' db t (hwf db (List.mem_of_getElem? hda))
+        (hnu db (List.mem_of_getElem? hda)) hemp')
+    simp only [List.append_nil] at harm
+    rw [harm]
+    rfl
+
 theorem C04_ord_refines (c : Cfg) (it : Item) (dw : DeriveWhere) (t : Trait)
     (ht : t = .partialOrd ∨ t = .ord)
     (hns : (dw.shortcut && dw.contains .ord) = false)
@@ -365,6 +417,135 @@ theorem C04_ord_refines (c : Cfg) (it : Item) (dw : DeriveWhere) (t : Trait)
     ∃ extra, OnlySelfClone extra ∧
       runMethod cx (ordMethodBody c it dw t) a (some b) =
         .ok (specOrdVal t cx.ops cx.ti it a b, extra) := by
-  sorry
+  cases a with
+  | adt k fa =>
+    cases b with
+    | adt k' fb =>
+      obtain ⟨da, hda, hla, hfa⟩ := ha
+      obtain ⟨db, hdb, hlb, hfb⟩ := hb
+      rw [runMethod_two]
+      unfold ordMethodBody ordSignature
+      by_cases hinc : it.isIncomparable = true
+      · have hmi := isIncomparable_spec it k da hda hinc
+        have htp : t = .partialOrd := by
+          rcases ht with h | h
+          · exact h
+          · have := hord h
+            rw [this.1, this.2 da (List.mem_of_getElem? hda)] at hmi
+            cases hmi
+        subst htp
+        refine ⟨[], by simp [OnlySelfClone], ?_⟩
+        rw [specOrdVal_inc cx.ops cx.ti it k k' da db fa fb hda hdb (by simp [hmi])]
+        simp [hinc, eval, Out.finish]
+      · have hinc' : it.isIncomparable = false := by simpa using hinc
+        have hm := not_isIncomparable_marked it hinc'
+        simp only [hinc', Bool.false_eq_true, if_false]
+        cases it with
+        | item d =>
+          refine ⟨[], by simp [OnlySelfClone], ?_⟩
+          exact ordSingle_refines c _ dw t ht hns cx hwf hnu hinc' rfl k k' da db fa fb hda hdb hla hlb hfa hfb
+        | enum_ disc id inc vs =>
+          simp only
+          by_cases hlen : vs.length > 1
+          · simp only [hlen, if_true]
+            have m : MultiCtx c (.enum_ disc id inc vs) dw t cx vs k k' da db fa fb :=
+              { ht := ht, hns := hns, hwf := hwf, hnu := hnu, hvs := rfl, hm := hm,
+                hord := fun h => (hord h).2, hda := hda, hdb := hdb, hla := hla, hlb := hlb,
+                hfa := hfa, hfb := hfb }
+            have hk : k < vs.length := by
+              rcases Nat.lt_or_ge k vs.length with h | h
+              · exact h
+              · simp only [Item.variants] at hda; rw [List.getElem?_eq_none h] at hda; cases hda
+            have hk' : k' < vs.length := by
+              rcases Nat.lt_or_ge k' vs.length with h | h
+              · exact h
+              · simp only [Item.variants] at hdb; rw [List.getElem?_eq_none h] at hdb; cases hdb
+            unfold ordMulti
+            simp only
+            split
+            · rename_i comparable hf
+              refine ⟨[], by simp [OnlySelfClone], ?_⟩
+              exact ordSingleComparable_refines c _ dw t cx vs k k' da db fa fb m hlen comparable hf
+            · cases hn : c.nightly
+              · simp only [Bool.false_eq_true, if_false]
+                exact ordStable_refines c _ dw t cx vs k k' da db fa fb m _
+                  (fun env log henv =>
+                    ordBodyElse_eval c cx t ht dw disc vs hti.1 hn (hti.2 hlen hn) env log k k' fa fb henv
+                      hk hk' hca hcb)
+              · simp only [if_true]
+                refine ⟨[], by simp [OnlySelfClone], ?_⟩
+                exact ordNightly_refines c _ dw t cx vs k k' da db fa fb m
+                  (hti.1.inj k k' hk hk')
+          · simp only [hlen, if_false]
+            refine ⟨[], by simp [OnlySelfClone], ?_⟩
+            exact ordSingle_refines c _ dw t ht hns cx hwf hnu hinc' (by simpa [Item.multi] using hlen)
+              k k' da db fa fb hda hdb hla hlb hfa hfb
+    | _ => exact hb.elim
+  | _ => exact ha.elim
+
+/-- With the delegation (`Ord` derived in the same attribute, no plain bounds),
+`partial_cmp` is `Some(Ord::cmp(self, other))`. -/
+theorem C04_delegation (c : Cfg) (it : Item) (dw : DeriveWhere)
+    (hs : (dw.shortcut && dw.contains .ord) = true) (cx : SemCtx α) (a b : Val α) (o : Ordering)
+    (himpl : cx.impls .cmp [a, b] = some (.ord o)) :
+    runMethod cx (partialOrdSignature c it dw (it.indexed.flatMap fun (k, d) => partialOrdBody dw k d))
+      a (some b) = .ok (.optOrd (some o), [.selfCall .cmp]) := by
+  rw [runMethod_two]
+  simp [partialOrdSignature, hs, eval, evalList, vSelf, vOther, himpl, applyFn, Out.finish]
+
+theorem at2_leaf {β} (fa fb : List (Val α)) (i : Nat) (dflt : β) (f : α → α → β)
+    (hfa : ∀ v ∈ fa, ∃ a, v = .leaf a) (hfb : ∀ v ∈ fb, ∃ a, v = .leaf a)
+    (h1 : i < fa.length) (h2 : i < fb.length) : ∃ x y, at2 fa fb i dflt f = f x y := by
+  obtain ⟨x, hx⟩ := hfa fa[i] (List.getElem_mem _)
+  obtain ⟨y, hy⟩ := hfb fb[i] (List.getElem_mem _)
+  refine ⟨x, y, ?_⟩
+  simp [at2, List.getElem?_eq_getElem h1, List.getElem?_eq_getElem h2, hx, hy]
+
+theorem lex_agree (ops : FieldOps α) (hlaw : ∀ x y, ops.pcmp x y = some (ops.cmp x y))
+    (fa fb : List (Val α)) (hfa : ∀ v ∈ fa, ∃ a, v = .leaf a) (hfb : ∀ v ∈ fb, ∃ a, v = .leaf a)
+    (is : List Nat) (his : ∀ i ∈ is, i < fa.length ∧ i < fb.length) :
+    lexPartial ops fa fb is = some (lexTotal ops fa fb is) := by
+  induction is with
+  | nil => simp [lexPartial, lexTotal]
+  | cons i is ih =>
+    have hi := his i (by simp)
+    obtain ⟨x, hx⟩ := hfa fa[i] (List.getElem_mem _)
+    obtain ⟨y, hy⟩ := hfb fb[i] (List.getElem_mem _)
+    have e1 : at2 fa fb i none ops.pcmp = some (ops.cmp x y) := by
+      simp [at2, List.getElem?_eq_getElem hi.1, List.getElem?_eq_getElem hi.2, hx, hy, hlaw]
+    have e2 : at2 fa fb i Ordering.eq ops.cmp = ops.cmp x y := by
+      simp [at2, List.getElem?_eq_getElem hi.1, List.getElem?_eq_getElem hi.2, hx, hy]
+    simp only [lexPartial, lexTotal, e1, e2]
+    cases h : ops.cmp x y <;> simp [ih (fun j hj => his j (by simp [hj]))]
+
+/-- `cmp` and `partial_cmp` agree on values without incomparable markers when
+the field impls agree (`partial_cmp = Some ∘ cmp` on fields) and the same
+fields are skipped for both (C05 `skip_uniform`). -/
+theorem C04_agree (ops : FieldOps α) (ti : TypeInfo) (it : Item)
+    (hlaw : ∀ x y, ops.pcmp x y = some (ops.cmp x y))
+    (hm : it.markedIncomparable = false) (hinc : ∀ d ∈ it.variants, d.incomparable = false)
+    (hskip : ∀ d ∈ it.variants, d.relevantIdx .partialOrd = d.relevantIdx .ord)
+    (a b : Val α) (ha : WfVal it a) (hb : WfVal it b) :
+    specPartialCmp ops ti it a b = some (specCmp ops ti it a b) := by
+  cases a with
+  | adt k fa =>
+    cases b with
+    | adt k' fb =>
+      obtain ⟨da, hda, hla, hfa⟩ := ha
+      obtain ⟨db, hdb, hlb, hfb⟩ := hb
+      have hia := hinc da (List.mem_of_getElem? hda)
+      have hib := hinc db (List.mem_of_getElem? hdb)
+      simp only [specPartialCmp, specCmp, hda, hdb, hm, hia, hib, Bool.or_self, Bool.false_eq_true, if_false]
+      by_cases hk : k = k'
+      · subst hk
+        have hdab : db = da := by rw [hda] at hdb; exact (Option.some.inj hdb).symm
+        subst hdab
+        simp only [if_true, hda]
+        rw [hskip db (List.mem_of_getElem? hda)]
+        exact lex_agree ops hlaw fa fb hfa hfb _
+          (fun i hi => by have := relevantIdx_lt' db .ord i hi; omega)
+      · simp [hk]
+    | _ => exact hb.elim
+  | _ => exact ha.elim
 
 end DW
